@@ -2,6 +2,9 @@ use std::path::PathBuf;
 
 use rpgp_verif::engine::{self, run, Ctx, ReplayReq, Tier};
 
+#[global_allocator]
+static GLOBAL: rpgp_verif::engine::alloc::Counting = rpgp_verif::engine::alloc::Counting;
+
 fn usage() -> ! {
     eprintln!("usage: vcheck <C01..C19> quick|thorough | vcheck <ID> replay <file>");
     std::process::exit(2)
@@ -44,7 +47,16 @@ fn main() {
                 Some(ReplayReq { group: v["group"].as_str().unwrap_or("").to_string(), tape }),
             )
         }
+        "worker" => {
+            let tier = if args.get(3).map(|s| s.as_str()) == Some("thorough") { Tier::Thorough } else { Tier::Quick };
+            (tier, None)
+        }
         _ => usage(),
+    };
+    let worker = if args[2] == "worker" {
+        Some(rpgp_verif::engine::run::WorkerReq { group: args[4].clone(), start: args[5].parse().unwrap_or(0), end: args[6].parse().unwrap_or(0) })
+    } else {
+        None
     };
     if let Ok(t) = std::env::var("VERIF_THREADS") {
         if let Ok(n) = t.parse::<usize>() {
@@ -55,7 +67,12 @@ fn main() {
     }
     run::install_panic_hook();
     let known = engine::load_known(&root);
-    let ctx = Ctx::new(prop, tier, seed, root, known, replay);
+    let mut ctx = Ctx::new(prop, tier, seed, root, known, replay);
+    ctx.worker = worker;
     runner(&ctx);
+    if ctx.worker.is_some() {
+        // the worker's group was not reached (should not happen)
+        std::process::exit(3);
+    }
     std::process::exit(ctx.finish());
 }
